@@ -1,8 +1,10 @@
 from __future__ import annotations
 
+import inspect
 import sys
 from enum import Enum as _Enum
 from enum import EnumMeta, IntEnum, IntFlag
+from types import DynamicClassAttribute
 from typing import TYPE_CHECKING, Any, BinaryIO, TypeVar, overload
 
 from dissect.cstruct.types.base import Array, BaseType, MetaType
@@ -124,7 +126,9 @@ def _fix_alias_members(cls: type[Enum]) -> None:
             # Flags iterate their members in definition order when decomposing a value
             new_member._sort_order_ = len(cls._member_names_)
 
-            type.__setattr__(cls, name, new_member)
+            if not isinstance(inspect.getattr_static(cls, name, None), DynamicClassAttribute):
+                # (a member named like a property of members -- name, value -- is reached through that property)
+                type.__setattr__(cls, name, new_member)
             cls._member_names_.append(name)
             cls._member_map_[name] = new_member
             cls._value2member_map_[member.value] = new_member
